@@ -919,7 +919,7 @@ def run(ck):
     import concurrent.futures as cf
     import multiprocessing as mp
     jobs = [(ck.seed, fi, quirk, thorough, str(tmp)) for fi in range(nfiles)]
-    with cf.ProcessPoolExecutor(max_workers=min(8, os.cpu_count() or 2), mp_context=mp.get_context("fork")) as ex:
+    with cf.ProcessPoolExecutor(max_workers=min(12 if thorough else 8, os.cpu_count() or 2), mp_context=mp.get_context("fork")) as ex:
         for res in ex.map(b_worker, jobs):
             cases += res["cases"]
             descs += res["descs"]
@@ -1301,7 +1301,8 @@ def part_b_file(ck, rng, tmp, fi, sp, quirk, add, fail, stats, thorough, fgroups
                     return
             else:
                 # ---- model on the variant: same observations as the reference (order-free ones)
-                if ref is not None and ghdr is not None:
+                if ref is not None and ghdr is not None and (not thorough or oi <= 3 or v["id"] == 0):
+                    # (thorough: 14 of the 20 variants of each of the 200 files go through Coq, all through pint)
                     # the observations are those of the reference file: pint gave the same answers on this
                     # variant (oracle below), so the model must give them on the variant's lines
                     dl, _flat, _st = def_lines(main)
